@@ -469,6 +469,13 @@ def write_evidence(ctx, violations):
         "wall_s": round(time.time() - ctx.t0, 2),
         "violations": violations,
     }
-    os.makedirs(VERIF + "/evidence", exist_ok=True)
-    with open("%s/evidence/%s.json" % (VERIF, ctx.prop), "w") as f:
+    # evidence/ describes runs against /repo itself; a run against a scratch copy (VERIF_REPO: a builder's
+    # proposed fix, a seeded change under ./trymut) leaves its record under .work/ instead
+    if REPO == "/repo":
+        os.makedirs(VERIF + "/evidence", exist_ok=True)
+        path = "%s/evidence/%s.json" % (VERIF, ctx.prop)
+    else:
+        ev["repo"] = REPO
+        path = "%s/evidence-scratch.json" % ctx.work
+    with open(path, "w") as f:
         json.dump(jsonable(ev), f, indent=1)
